@@ -16,6 +16,7 @@ require (
 	github.com/btcsuite/btcwallet/wallet/txsizes v1.2.5
 	github.com/btcsuite/btcwallet/walletdb v1.5.1
 	github.com/btcsuite/btcwallet/wtxmgr v1.5.6
+	github.com/lightninglabs/neutrino v0.16.0
 	github.com/lightningnetwork/lnd/clock v1.0.1
 	golang.org/x/crypto v0.22.0
 )
@@ -30,7 +31,6 @@ require (
 	github.com/decred/dcrd/lru v1.1.2 // indirect
 	github.com/kkdai/bstream v1.0.0 // indirect
 	github.com/lightninglabs/gozmq v0.0.0-20191113021534-d20a764486bf // indirect
-	github.com/lightninglabs/neutrino v0.16.0 // indirect
 	github.com/lightninglabs/neutrino/cache v1.1.2 // indirect
 	github.com/lightningnetwork/lnd/queue v1.0.1 // indirect
 	github.com/lightningnetwork/lnd/ticker v1.0.0 // indirect
